@@ -843,6 +843,12 @@ func (f *Frame) havocLoc(env *SpecEnv, m SExpr, st *State) {
 			}
 			env.fail("modifies %s: not a slice/map", specString(m))
 		}
+	case *SCall:
+		if id, ok := x.Fun.(*SIdent); ok && id.Name == "gint" {
+			c := env.withState(st).gintCell(x)
+			st.store[c] = Sc{in.D.fresh(c.Name, SInt)}
+			return
+		}
 	case *SUn:
 		if x.Op == "*" {
 			p, ok := env.withState(st).eval(x.X).(PtrV)
